@@ -8,6 +8,7 @@ import (
 	"io"
 	"testing"
 
+	"github.com/pion/rtp"
 	"pgregory.net/rapid"
 )
 
@@ -17,6 +18,10 @@ type MarshalToCase struct {
 	Fill     string      `json:"fill"` // "zero" | "ff" | "ee" | "random"
 	FillSeed uint64      `json:"fill_seed"`
 	SpareCap int         `json:"spare_cap"` // the destination is the first DstLen bytes of an arena this much larger (a re-sliced pooled buffer)
+	// InPlace: additionally the forwarder pattern - Unmarshal(buf), change fixed header fields, MarshalTo(buf): the
+	// destination previously contained the packet's own wire image, which the packet's slices still point into
+	InPlace bool   `json:"in_place,omitempty"`
+	Tweak   uint32 `json:"tweak,omitempty"`
 }
 
 var subC04 = register("C04", "marshalto", checkC04)
@@ -156,8 +161,65 @@ func checkC04(r *run, c *MarshalToCase) (CaseInfo, error) {
 			return ci, failf("Header.MarshalTo modified bytes beyond the %d it reported", hn)
 		}
 	}
+	if c.InPlace {
+		if err := checkC04InPlace(c, want, &ci); err != nil {
+			return ci, err
+		}
+	}
 
 	return ci, nil
+}
+
+// checkC04InPlace: parse a wire image, change fixed header fields only (the layout stays the same), write the
+// packet back over the image it was parsed from. The result must be what Marshal() returns for the changed packet.
+func checkC04InPlace(c *MarshalToCase, wire []byte, ci *CaseInfo) error {
+	size := len(wire)
+	buf := make([]byte, size+c.SpareCap)
+	copy(buf, wire)
+	for i := size; i < len(buf); i++ {
+		buf[i] = 0x77
+	}
+	var q rtp.Packet
+	if err := q.Unmarshal(buf[:size]); err != nil {
+		ci.class("in-place-skipped:own-output-rejected")
+
+		return nil // C01's business
+	}
+	if again, err := q.Marshal(); err != nil || !bytes.Equal(again, wire) {
+		ci.class("in-place-skipped:not-a-fixed-point")
+
+		return nil // the parsed packet has another layout than the image (C01/C03's business): overlap hazards are the caller's
+	}
+	q.SequenceNumber += uint16(c.Tweak)
+	q.Timestamp ^= c.Tweak
+	q.SSRC += c.Tweak >> 3
+	q.Marker = !q.Marker
+	q.PayloadType = (q.PayloadType + uint8(c.Tweak>>8)) & 0x7F
+	want, err := q.Marshal()
+	if err != nil || len(want) != size {
+		return failf("in place: Marshal after changing fixed header fields: %d bytes (was %d), %v", len(want), size, err)
+	}
+	n, err := q.MarshalTo(buf[:size])
+	if err != nil || n != size {
+		return failf("in place: MarshalTo over the packet's own %d-byte wire image: n=%d err=%v", size, n, err)
+	}
+	if !bytes.Equal(buf[:size], want) {
+		return failf("in place: Unmarshal(buf), change sequence number/timestamp/SSRC/marker/PT, MarshalTo(buf) gives\n  %s\nMarshal() of the same packet gave\n  %s", hb(buf[:size]), hb(want))
+	}
+	for i := size; i < len(buf); i++ {
+		if buf[i] != 0x77 {
+			return failf("in place: MarshalTo wrote beyond the %d bytes of the packet", size)
+		}
+	}
+	if after, err := q.Marshal(); err != nil || !bytes.Equal(after, want) {
+		return failf("in place: the packet itself changed through MarshalTo into the buffer it was parsed from: Marshal() now gives %s, before %s (%v)", hb(after), hb(want), err)
+	}
+	ci.class("in-place")
+	if len(q.Payload) > 0 || len(q.GetExtensionIDs()) > 0 {
+		ci.Nontrivial = true
+	}
+
+	return nil
 }
 
 func extRawSize(m *PacketModel) int {
@@ -188,6 +250,9 @@ func genMarshalToCase(t *rapid.T) *MarshalToCase {
 	if genBool(t, "sparecap") {
 		c.SpareCap = rapid.SampledFrom([]int{1, 2, 3, 4, 8, 16, 64, 300, 2000}).Draw(t, "sparecapval")
 	}
+	if rapid.IntRange(0, 2).Draw(t, "inplace") == 0 {
+		c.InPlace, c.Tweak = true, genU32(t, "tweak")
+	}
 	c.Fill = rapid.SampledFrom([]string{"zero", "ff", "ee", "random", "random"}).Draw(t, "fill")
 	if c.Fill == "random" {
 		c.FillSeed = rapid.Uint64().Draw(t, "fillseed")
@@ -196,7 +261,7 @@ func genMarshalToCase(t *rapid.T) *MarshalToCase {
 	return c
 }
 
-const ruleC04 = "C01's well-formed packets x destination lengths {0,1,11,12,hdr-1,hdr,hdr+1,size-1,size,size+1,size+7} or uniform in [0,size+16] x prior contents {zero,0xFF,0xEE,random} x spare capacity behind the destination (0 or 1-2000 bytes: a re-sliced pooled buffer); oracle: short destination -> io.ErrShortBuffer with n=0, otherwise n=MarshalSize, bytes identical to Marshal(), bytes beyond n untouched; same for Header.MarshalTo. Non-trivial = dirty destination with extension padding or >=2 RTP padding octets, or destination length in {size-1,size}; distinct = FNV-64 of the JSON case"
+const ruleC04 = "C01's well-formed packets x destination lengths {0,1,11,12,hdr-1,hdr,hdr+1,size-1,size,size+1,size+7} or uniform in [0,size+16] x prior contents {zero,0xFF,0xEE,random} x spare capacity behind the destination (0 or 1-2000 bytes: a re-sliced pooled buffer); oracle: short destination -> io.ErrShortBuffer with n=0, otherwise n=MarshalSize, bytes identical to Marshal(), bytes beyond n untouched; same for Header.MarshalTo; one case in three also runs the forwarder pattern Unmarshal(buf) / change sequence number, timestamp, SSRC, marker, PT / MarshalTo(buf) over the packet's own wire image (only when that image is a Marshal fixed point, so the layout is unchanged): result = Marshal() of the changed packet, packet intact. Non-trivial = dirty destination with extension padding or >=2 RTP padding octets, or destination length in {size-1,size}; distinct = FNV-64 of the JSON case"
 
 func TestC04(t *testing.T) {
 	r := begin(t, "C04", "exploration", ruleC04)
